@@ -66,6 +66,8 @@ struct ObjModel<'a> {
     u: &'a ObjUniverse,
     st: &'a Stats,
     reverse: bool,
+    /// every delivered packet is delivered twice in a row (multisets, not just sets)
+    dup: bool,
 }
 
 impl ObjModel<'_> {
@@ -73,9 +75,9 @@ impl ObjModel<'_> {
         let ids: Vec<(u8, u32)> = path.iter().map(|&i| (self.u.packets[i].payload_id().source_block_number(), self.u.packets[i].payload_id().encoding_symbol_id())).collect();
         let c = self.u.cfg;
         self.st.violation(
-            format!("obj:{}:{}:{}:{}:{}:{}:{:?}", c.0, c.1, c.2, c.3, c.4, self.reverse, path),
+            format!("obj:{}:{}:{}:{}:{}:{}{}:{:?}", c.0, c.1, c.2, c.3, c.4, self.reverse, if self.dup { "+dup" } else { "" }, path),
             format!("config (F,T,Z,N,Al)={:?} after delivering (SBN,ESI) {:?}: {}", c, ids, msg),
-            json!({"kind":"object","F":c.0,"T":c.1,"Z":c.2,"N":c.3,"Al":c.4,"reverse":self.reverse,"path":path}),
+            json!({"kind":"object","F":c.0,"T":c.1,"Z":c.2,"N":c.3,"Al":c.4,"reverse":self.reverse,"dup":self.dup,"path":path}),
         );
     }
 }
@@ -94,7 +96,19 @@ impl Lattice for ObjModel<'_> {
     }
     fn deliver(&self, s: &mut ObjState, i: usize, path: &[usize], check: bool, l: &mut ObjLocal) {
         let u = self.u;
-        let r = guarded(|| s.dec.decode(u.packets[i].clone()));
+        let mut r = guarded(|| s.dec.decode(u.packets[i].clone()));
+        if self.dup {
+            let r2 = guarded(|| s.dec.decode(u.packets[i].clone()));
+            if check {
+                match (&r, &r2) {
+                    (Ok(Some(a)), Ok(b)) if b.as_ref() != Some(a) => self.report(path, "delivering the last packet a second time changed the answer".into()),
+                    (Ok(Some(a)), _) if a != &u.data => self.report(path, "first delivery of the last packet returned a wrong object".into()),
+                    (Err(p), _) => self.report(path, format!("decode panicked: {}", p)),
+                    _ => {}
+                }
+            }
+            r = r2;
+        }
         if let Some((b, _)) = u.src[i] {
             s.have[b] += 1;
         }
@@ -140,11 +154,11 @@ impl Lattice for ObjModel<'_> {
     }
 }
 
-fn run_config(cfg: (u64, u16, u8, u16, u8), reverse: bool, st: &Stats) {
+fn run_config(cfg: (u64, u16, u8, u16, u8), reverse: bool, dup: bool, st: &Stats) {
     match make_obj_universe(cfg.0, cfg.1, cfg.2, cfg.3, cfg.4, reverse) {
-        Err(m) => st.violation(format!("objbuild:{:?}", cfg), m, json!({"kind":"object","F":cfg.0,"T":cfg.1,"Z":cfg.2,"N":cfg.3,"Al":cfg.4,"reverse":reverse,"path":[]})),
+        Err(m) => st.violation(format!("objbuild:{:?}", cfg), m, json!({"kind":"object","F":cfg.0,"T":cfg.1,"Z":cfg.2,"N":cfg.3,"Al":cfg.4,"reverse":reverse,"dup":dup,"path":[]})),
         Ok(u) => {
-            let m = ObjModel { u: &u, st, reverse };
+            let m = ObjModel { u: &u, st, reverse, dup };
             // sequential inside one configuration; configurations are spread over the threads
             let mut local = ObjLocal::default();
             let s0 = m.init();
@@ -166,12 +180,21 @@ fn run_config(cfg: (u64, u16, u8, u16, u8), reverse: bool, st: &Stats) {
 fn replay_object(case: &Value) -> Result<(), String> {
     let g = |n: &str| case[n].as_u64().unwrap_or(0);
     let reverse = case["reverse"].as_bool().unwrap_or(false);
+    let dup = case["dup"].as_bool().unwrap_or(false);
     let u = make_obj_universe(g("F"), g("T") as u16, g("Z") as u8, g("N") as u16, g("Al") as u8, reverse)?;
     let path: Vec<usize> = case["path"].as_array().unwrap().iter().map(|x| x.as_u64().unwrap() as usize).collect();
     let mut dec = Decoder::new(u.oti);
     let mut have = vec![0u32; u.ks.len()];
     for (step, &i) in path.iter().enumerate() {
-        let r = guarded(|| dec.decode(u.packets[i].clone())).map_err(|e| format!("step {}: decode panicked: {}", step, e))?;
+        let mut r = guarded(|| dec.decode(u.packets[i].clone())).map_err(|e| format!("step {}: decode panicked: {}", step, e))?;
+        if dup {
+            let r2 = guarded(|| dec.decode(u.packets[i].clone())).map_err(|e| format!("step {}: second delivery panicked: {}", step, e))?;
+            if let Some(a) = &r {
+                if a != &u.data { return Err(format!("step {}: wrong object on first delivery", step)); }
+                if r2.as_ref() != Some(a) { return Err(format!("step {}: second delivery of the same packet changed the answer", step)); }
+            }
+            r = r2;
+        }
         if let Some((b, _)) = u.src[i] {
             have[b] += 1;
         }
@@ -294,9 +317,115 @@ fn check_size(k: u32, heavy: bool) -> Result<(u64, u64), String> {
     Ok((histories, solver_decodes))
 }
 
+// ---------------------------------------------------------------- (C) wide shapes, deviation-bounded histories
+/// For one configuration: per block b and erased source symbol e in {0, K_b/2, K_b-1}: deliver every other source
+/// packet of every block (blocks interleaved round-robin, reverse ESI order) plus repair ESIs K_b..K_b+2 of block
+/// b, then the erased packet; a repair-only history for all blocks; each answer None or the object.
+fn check_shape(cfg: (u64, u16, u8, u16, u8)) -> Result<(u64, u64, u64), String> {
+    let (f, t, z, n, al) = cfg;
+    let data = data_pos(f as usize);
+    let oti = Oti::new(f, t, z, n, al);
+    let enc = guarded(|| Encoder::new(&data, oti)).map_err(|e| format!("{:?}: Encoder::new panicked: {}", cfg, e))?;
+    let bes = enc.get_block_encoders();
+    let src: Vec<Vec<EncodingPacket>> = bes.iter().map(|b| b.source_packets()).collect();
+    let rep: Vec<Vec<EncodingPacket>> = bes.iter().map(|b| b.repair_packets(0, b.source_packets().len() as u32 + 3)).collect();
+    let total_src: usize = src.iter().map(|s| s.len()).sum();
+    let verdict = |label: &str, step: usize, r: Option<Vec<u8>>, must: bool| -> Result<bool, String> {
+        match r {
+            None if must => Err(format!("{:?} history '{}' step {}: all source packets delivered but no answer", cfg, label, step)),
+            None => Ok(false),
+            Some(d) => {
+                if d.len() as u64 != f {
+                    Err(format!("{:?} history '{}' step {}: returned {} bytes, transfer length is {}", cfg, label, step, d.len(), f))
+                } else if d != data {
+                    Err(format!("{:?} history '{}' step {}: wrong bytes (first difference at offset {:?})", cfg, label, step, d.iter().zip(data.iter()).position(|(a, b)| a != b)))
+                } else {
+                    Ok(true)
+                }
+            }
+        }
+    };
+    let (mut histories, mut via_repair, mut none_with_overhead) = (0u64, 0u64, 0u64);
+    for b in 0..src.len() {
+        let kb = src[b].len();
+        let mut es = vec![0usize, kb / 2, kb - 1];
+        es.dedup();
+        for &e in &es {
+            let label = format!("block {} source ESI {} erased", b, e);
+            let mut dec = Decoder::new(oti);
+            let mut step = 0usize;
+            let mut delivered_src = 0usize;
+            // round-robin over the blocks, descending ESI
+            let maxk = src.iter().map(|s| s.len()).max().unwrap_or(0);
+            for i in (0..maxk).rev() {
+                for bb in 0..src.len() {
+                    if i >= src[bb].len() || (bb == b && i == e) {
+                        continue;
+                    }
+                    let r = guarded(|| dec.decode(src[bb][i].clone())).map_err(|x| format!("{:?} '{}' step {}: panic {}", cfg, label, step, x))?;
+                    delivered_src += 1;
+                    if verdict(&label, step, r, false)? {
+                        return Err(format!("{:?} '{}': answered after {} source packets although one is missing and no repair packet was delivered", cfg, label, delivered_src));
+                    }
+                    step += 1;
+                }
+            }
+            // one source packet of the damaged block a second time (a multiset, not a set)
+            if kb > 1 {
+                let d = if e == 0 { kb - 1 } else { 0 };
+                let r = guarded(|| dec.decode(src[b][d].clone())).map_err(|x| format!("{:?} '{}' duplicate source ESI {}: panic {}", cfg, label, d, x))?;
+                if verdict(&label, step, r, false)? {
+                    return Err(format!("{:?} '{}': answered after a duplicate source packet although one source packet is missing and no repair packet was delivered", cfg, label));
+                }
+            }
+            let mut answered = false;
+            for p in rep[b].iter().take(3) {
+                let r = guarded(|| dec.decode(p.clone())).map_err(|x| format!("{:?} '{}' step {} (repair): panic {}", cfg, label, step, x))?;
+                step += 1;
+                if verdict(&label, step, r, false)? {
+                    answered = true;
+                    via_repair += 1;
+                    break;
+                }
+            }
+            if !answered {
+                none_with_overhead += 1;
+            }
+            let r = guarded(|| dec.decode(src[b][e].clone())).map_err(|x| format!("{:?} '{}' late source: panic {}", cfg, label, x))?;
+            verdict(&label, step, r, true)?;
+            debug_assert_eq!(delivered_src + 1, total_src);
+            histories += 1;
+        }
+    }
+    // repair only, blocks in reverse order
+    {
+        let label = "repair only";
+        let mut dec = Decoder::new(oti);
+        let mut step = 0;
+        let mut answered = false;
+        for b in (0..rep.len()).rev() {
+            for p in rep[b].iter() {
+                let r = guarded(|| dec.decode(p.clone())).map_err(|x| format!("{:?} '{}' step {}: panic {}", cfg, label, step, x))?;
+                step += 1;
+                if verdict(label, step, r, false)? {
+                    answered = true;
+                }
+            }
+        }
+        if answered {
+            via_repair += 1;
+        } else {
+            none_with_overhead += 1;
+        }
+        histories += 1;
+    }
+    Ok((histories, via_repair, none_with_overhead))
+}
+
 pub fn replay(case: &Value) -> Result<(), String> {
     match case["kind"].as_str().unwrap_or("") {
         "object" => replay_object(case),
+        "shape" => check_shape((case["F"].as_u64().unwrap(), case["T"].as_u64().unwrap() as u16, case["Z"].as_u64().unwrap() as u8, case["N"].as_u64().unwrap() as u16, case["Al"].as_u64().unwrap() as u8)).map(|_| ()),
         "size" => check_size(case["K"].as_u64().unwrap() as u32, true).map(|_| ()),
         k => Err(format!("unknown kind {}", k)),
     }
@@ -313,9 +442,9 @@ pub fn run(ctx: &Ctx) -> i32 {
     let mut cfgs = box_a(&ts);
     // heaviest (largest universe) first
     cfgs.sort_by_key(|c| std::cmp::Reverse(((c.0 + c.1 as u64 - 1) / c.1 as u64) + 3 * c.2 as u64));
-    let work: Vec<((u64, u16, u8, u16, u8), bool)> = cfgs.iter().flat_map(|&c| [(c, false), (c, true)]).collect();
+    let work: Vec<((u64, u16, u8, u16, u8), bool, bool)> = cfgs.iter().flat_map(|&c| [(c, false, false), (c, true, false), (c, true, true)]).collect();
     par_for(work.len(), |i| {
-        run_config(work[i].0, work[i].1, &st);
+        run_config(work[i].0, work[i].1, work[i].2, &st);
     });
     st.set_counter("A_configurations", cfgs.len() as u64);
     // (B)
@@ -335,15 +464,42 @@ pub fn run(ctx: &Ctx) -> i32 {
             Err(m) => st.violation(format!("size:{}", k), m, json!({"kind":"size","K":k})),
         }
     });
+    // (C)
+    let wide_ts: Vec<u16> = if ctx.quick() { vec![3, 5, 6, 12, 16, 24] } else { vec![3, 5, 6, 7, 9, 10, 12, 15, 16, 20, 24, 30, 32, 48, 64] };
+    let (ckt, cz) = if ctx.quick() { (10, 6) } else { (14, 8) };
+    let mut shapes = crate::c05::wide_configs(&wide_ts, ckt, cz);
+    // tall objects (T=1 and T=2/N=2): block sizes KL = KS+1 on both sides of the table sizes K' = 10, 12, 18, 20, 26, ...
+    for kt in 11..=(if ctx.quick() { 130u64 } else { 330 }) {
+        for z in 2..=(if ctx.quick() { 4u64 } else { 6 }) {
+            shapes.push((kt, 1, z as u8, 1, 1));
+            if kt % 4 == 1 { shapes.push((2 * kt - 1, 2, z as u8, 2, 1)); }
+        }
+    }
+    par_for_chunk(shapes.len(), 16, |i| {
+        let c = shapes[i];
+        match check_shape(c) {
+            Ok((h, d, nn)) => {
+                st.eval(h);
+                st.nontriv(d);
+                st.count("C_shapes", 1);
+                st.count("C_histories", h);
+                st.count("C_decoded_using_repair", d);
+                st.count("C_none_despite_overhead", nn);
+                if c.2 > 1 && c.3 > 1 { st.count("C_shapes_Z>1_N>1", 1); }
+            }
+            Err(m) => st.violation(format!("shape:{:?}", c), m, json!({"kind":"shape","F":c.0,"T":c.1,"Z":c.2,"N":c.3,"Al":c.4})),
+        }
+    });
+    st.sample(json!({"part":"C","config":{"F":95,"T":12,"Z":3,"N":4,"Al":1},"histories":"per block, erase source ESI 0 / K/2 / K-1: all other source packets of all blocks (round-robin, descending ESI), repair ESIs K..K+2 of that block, then the erased packet; repair-only in reverse block order"}));
     st.sample(json!({"part":"A","config":{"F":7,"T":2,"Z":3,"N":2,"Al":1},"universe":"per block: all source + repair ESI K, K+1 + ESI 2^24-1","explored":"every subset in canonical order and every subset in reverse order, Decoder cloned per branch"}));
     st.sample(json!({"part":"B","K":56403,"histories":["all source in order","erase [0] + repair","erase [K/2] + repair","erase [K-1] + repair","erase pairs","repair only","far repair only"]}));
     let _ = rfcref::params_for_k(10);
     finish(ctx, &st, Finish {
         level: "exploration",
-        rule: format!("(A) every valid (F,T,Z,N,Al) with T in {:?}, Al|T, N<=T/Al, ceil(F/T)<=4, Z<=min(ceil(F/T),3): packet universe = per block all source packets + repair ESIs K, K+1, 2^24-1; EVERY subset delivered in canonical order and again in reverse order through a real Decoder (clone per branch): each answer is None or exactly the object with length F, Some is mandatory once all source packets are in, no panic. (B) {} block sizes (every K' and its smallest K{}), T=2, F=K*T-1, object-level Decoder: all source in order (None before, object at the K-th), erasure patterns {{0,K/2,K-1 and pairs}} + repair from ESI K until answered + late source symbols, repair-only, far-repair-only. distinct_nontrivial = nodes/histories answered with the help of repair symbols (solver ran).", ts, sizes.len(), if ctx.quick() { "; quick tier: K<=2100, 10899, 56403" } else { "" }),
+        rule: format!("(A) every valid (F,T,Z,N,Al) with T in {:?}, Al|T, N<=T/Al, ceil(F/T)<=4, Z<=min(ceil(F/T),3): packet universe = per block all source packets + repair ESIs K, K+1, 2^24-1; EVERY subset delivered in canonical order, again in reverse order, and again in reverse order with every packet delivered twice (multisets) through a real Decoder (clone per branch): each answer is None or exactly the object with length F, Some is mandatory once all source packets are in, no panic. (B) {} block sizes (every K' and its smallest K{}), T=2, F=K*T-1, object-level Decoder: all source in order (None before, object at the K-th), erasure patterns {{0,K/2,K-1 and pairs}} + repair from ESI K until answered + late source symbols, repair-only, far-repair-only. (C) {} wide shapes: T in {:?}, every Al|T, every N<=T/Al, ceil(F/T)<={}, Z<={}, F=ceil(F/T)*T-{{0,1,2,T/2,T-1}}: per block and erased source symbol in {{0,K/2,K-1}} all other source packets of all blocks interleaved + 3 repair packets of that block + the erased packet (must answer then), and a repair-only history. distinct_nontrivial = nodes/histories answered with the help of repair symbols (solver ran).", ts, sizes.len(), if ctx.quick() { "; quick tier: K<=2100, 10899, 56403" } else { "" }, shapes.len(), wide_ts, ckt, cz),
         exhaustive: false,
         assumptions: vec!["one data pattern (pos) per configuration; other contents follow by linearity (C09)".into(), "Kt > 4 is not combined with full subset enumeration".into()],
         extra: Map::new(),
-        must_be_nonzero: vec!["A_nodes", "A_answers_some", "A_answers_none", "A_decoded_using_repair", "B_block_sizes", "B_solver_decodes"],
+        must_be_nonzero: vec!["A_nodes", "A_answers_some", "A_answers_none", "A_decoded_using_repair", "B_block_sizes", "B_solver_decodes", "C_shapes", "C_decoded_using_repair", "C_shapes_Z>1_N>1"],
     }, replay)
 }
